@@ -378,7 +378,7 @@ def gen_str_expr(rnd, ncols, depth=2, allow_b=False, bcols=2):
         return ['a', rnd.randrange(_w(ncols))]
     if r < 0.6:
         # `$`-sequences are replacement patterns of JavaScript's String.replace / replaceAll: literal text must go through the code templates verbatim
-        return ['lit', rnd.choice(STR_POOL + ['select', 'where x', '* ,', "it's", 'say "hi"', 'a1', '#c', '$$', '<$&>', "US$", '$`x', "$'", '$1', '{}', '{0}', '%s', '\\1', 'x\ty', '\t'])]
+        return ['lit', rnd.choice(STR_POOL + ['select', 'where x', '* ,', "it's", 'say "hi"', 'a1', '#c', '$$', '<$&>', "US$", '$`x', "$'", '$1', '{}', '{0}', '%s', '\\1', 'x\ty', '\t', 'L\x0cR', 'v\x0bt', 'fs\x1cx', 'n\x85m', 'u\u2028v', 'p\u2029#q'])]
     return ['concat', gen_str_expr(rnd, ncols, depth - 1, allow_b, bcols), gen_str_expr(rnd, ncols, depth - 1, allow_b, bcols)]
 
 
